@@ -53,7 +53,7 @@ def classify(prop, ens_names, enforce):
         if 1 <= k <= len(lst):
             nm = lst[k - 1]
         return 'postcondition', '%s:%s' % (fn, nm or ('ensures#%d' % k))
-    if desc == 'CANARY':
+    if desc == 'CANARY' or desc.startswith('REACH:'):
         return 'canary', name
     if desc.startswith('VA:'):
         return 'assertion', desc[3:]
